@@ -220,6 +220,7 @@ pub struct IdxCtx<'a> {
 pub fn classify_index_deviation(base_sig: &str, got: &BTreeSet<i64>, exp: &BTreeSet<i64>, pred: &Pred, m: &Model, cx: &IdxCtx) -> Vec<String> {
     let (extra, missing) = set_diff(got, exp);
     let indexed = cx.indexed;
+    let mut range_swap_shape = false;
     // (2) `x < a AND x >= b` / `x <= a AND x > b` (upper bound first): maybe_range swaps the
     //     inclusiveness of the two bounds; every deviating row sits exactly on one of the bounds.
     {
@@ -235,9 +236,8 @@ pub fn classify_index_deviation(base_sig: &str, got: &BTreeSet<i64>, exp: &BTree
                         || cmp_cell_lit(ty, &r[*c], b) == Some(std::cmp::Ordering::Equal)
                 })
             };
-            if extra.iter().chain(missing.iter()).all(on_bound) {
-                return vec!["index-range-upper-bound-first-inclusiveness-swapped".into()];
-            }
+            // (fixed in /repo batch 3; only a label for an otherwise unclassified deviation — see the end)
+            range_swap_shape = extra.iter().chain(missing.iter()).all(on_bound);
         }
     }
     // (fixed in /repo batch 3: deferred remap is ignored on tables with stable row ids; a deviation
@@ -317,7 +317,7 @@ pub fn classify_index_deviation(base_sig: &str, got: &BTreeSet<i64>, exp: &BTree
         missing_done = true;
     }
     if !extra_done || !missing_done {
-        sigs.push(format!("index-{base_sig}"));
+        sigs.push(if range_swap_shape { "index-range-upper-bound-first-inclusiveness-swapped".to_string() } else { format!("index-{base_sig}") });
     }
     sigs
 }
